@@ -73,7 +73,7 @@ func legalPath(log []model.Transition, rule string) error {
 }
 
 func TestBreakerMachine(t *testing.T) {
-	hx.Check(t, hx.N{Quick: 6000, Thorough: 40000}, func(t *rapid.T, c *hx.Case) {
+	hx.Check(t, hx.N{Quick: 36000, Thorough: 400000}, func(t *rapid.T, c *hx.Case) {
 		hx.Reset(hx.Epoch + uint64(rapid.IntRange(0, 2999).Draw(t, "t0")))
 		lis := &listener{}
 		cb.RegisterStateChangeListeners(lis)
